@@ -193,3 +193,8 @@ func Count(n []int, bound int) int64 {
 	}
 	return s
 }
+
+// Exhausted reports that the replay prefix is consumed and no deviation budget is left: no
+// alternative can be scheduled at later points, so a caller may skip calling Pick (used by the
+// cooperative scheduler to avoid a Pick at every statement once its preemptions are spent).
+func (c *Ctx) Exhausted() bool { return len(c.choices) >= len(c.prefix) && c.spent >= c.bound }
